@@ -407,6 +407,8 @@ def _b(x):
 
 
 SELFTEST = [
+    dict(id='overlap-resolved-to-the-earlier-reading', file='src/ace_time/ExtendedZoneProcessor.h',
+         find='        if (candidate->startDateTime > localDate) break;', replace='        if (candidate->startDateTime >= localDate) break;', rule='R4'),
     dict(id='fold-only-whole-days', file='src/ace_time/ExtendedZoneProcessor.h', find='      while (dt->minutes < 0) {', replace='      while (dt->minutes <= -kOneDayAsMinutes) {', rule='R1', construct='normalizeDateTuple'),
     dict(id='upper-fold-dropped', file='src/ace_time/ExtendedZoneProcessor.h', find='      while (kOneDayAsMinutes <= dt->minutes) {', replace='      while (2 * kOneDayAsMinutes <= dt->minutes) {', rule='R1', construct='normalizeDateTuple'),
     dict(id='start-time-not-normalised', file='src/ace_time/ExtendedZoneProcessor.h', find='        normalizeDateTuple(&t->startDateTime);\n', replace='', rule='R1', construct='startDateTime'),
